@@ -29,7 +29,9 @@ CLAIMS = {
                 note="order / multiplicity of the rows ('each once, in domain order') is argued from R1 + the loop structure in "
                      "DESIGN.md and exercised by the native oracle (bounded, not counted as proved); result caching switched "
                      "off in these obligations (cache transparency is C05); T1 tree-shape, T3, T4 assumptions; LeafExt lemma"),
-    'C02': dict(level=P, text="The same interface obligations for the multi-variable path: Comparator with either operand "
+    'C02': dict(level='other', text="(One recorded finding - rows are returned for an EMPTY product when an unselected variable "
+                "over an empty domain is mentioned by one operand of an or_ only - keeps this at level other.)  "
+                "The same interface obligations for the multi-variable path: Comparator with either operand "
                 "order, AND threading bindings left to right, ElseIf, QueryObjectDescriptor._evaluate_ with one and two "
                 "selected variables (bound ones keep their binding, unbound ones are completed over their domain, all under "
                 "one binding), SetOf, Entity: soundness and completeness of the set of rows against Den over the product of "
@@ -245,7 +247,9 @@ ORACLES = {
                     'variables, four spellings each (declaration order, listing order, & | vs and_ or_, conjuncts one by one, '
                     'domain permutation), evaluated twice', 100, 2000, kind='fuzzq'),
             _oracle('conjunctions of disjunctions over three variables, literal-free (result caches receive entries over some '
-                    'of their keys next to entries over all of them)', 300, 4000, kind='fuzzq', shape='and_of_ors', nvars=3, nolit=True)],
+                    'of their keys next to entries over all of them)', 300, 4000, kind='fuzzq', shape='and_of_ors', nvars=3, nolit=True),
+            _oracle('one unselected variable ranges over an EMPTY domain: the product of the domains is empty, no row is returned '
+                    'whatever the condition', 100, 1500, kind='empty_unselected')],
     'C03': [_oracle('nested negation, one variable', 200, 3000, nvars=1, depth=3, neg=True, nested_neg=True),
             _oracle('nested negation, two variables', 100, 1500, nvars=2, depth=2, neg=True, nested_neg=True),
             _oracle('negated predicates (function and class form) and bare expressions', 150, 2000, nvars=1, depth=2, neg=True,
